@@ -3,7 +3,7 @@ CONSTANTS
   NProviders = {2, 3, 5}
   Renames = {"none", "one", "all"}
   Langs = {"typescript", "kotlin", "swift", "scala", "go", "python"}
-  Modes = {"multi", "single"}
+  Modes = {"multi"}
 INIT Init
 NEXT Next
 INVARIANT Emit
